@@ -5,5 +5,6 @@ CONSTANTS
   MaxCalls = 2
   OrderedMerge = FALSE
   ReadsLeak = FALSE
+  OrderedScan = TRUE
 INVARIANT Functional
 CHECK_DEADLOCK FALSE
